@@ -562,6 +562,9 @@ func (e *Env) evalIndex(n *ast.IndexExpr) SV {
 	switch u := base.ty.Underlying().(type) {
 	case *types.Slice:
 		idx := e.eval(n.Index, types.Typ[types.Int])
+		if base.content != nil {
+			return scalarSV(u.Elem(), Select(base.content, BvBin("bvadd", base.l[1], toI64(idx))))
+		}
 		return e.st.load(e.x, sliceElemAddr(base, toI64(idx)))
 	case *types.Array:
 		idx := e.eval(n.Index, types.Typ[types.Int])
@@ -603,7 +606,7 @@ func (e *Env) evalSlice(n *ast.SliceExpr) SV {
 	if n.High != nil {
 		hi = toI64(e.eval(n.High, types.Typ[types.Int]))
 	}
-	return SV{ty: base.ty, l: []*Term{base.l[0], BvBin("bvadd", base.l[1], lo), BvBin("bvsub", hi, lo), BvBin("bvsub", base.l[3], lo)}, p: base.p}
+	return SV{ty: base.ty, l: []*Term{base.l[0], BvBin("bvadd", base.l[1], lo), BvBin("bvsub", hi, lo), BvBin("bvsub", base.l[3], lo)}, p: base.p, content: base.content}
 }
 
 func (e *Env) evalBinary(n *ast.BinaryExpr, hint types.Type) SV {
@@ -962,6 +965,27 @@ func (e *Env) evalCall(n *ast.CallExpr, hint types.Type) SV {
 			}
 			v := e.eval(n.Args[ai], pt)
 			ai++
+			if es := seqElemSort(pt); es != nil {
+				if _, ok := v.ty.Underlying().(*types.Slice); !ok || len(v.l) != 4 {
+					efail("argument %d of %s must be a slice", i, name)
+				}
+				c := v.content
+				if c == nil {
+					st := e.st
+					if ce, ok := n.Args[ai-1].(*ast.CallExpr); ok {
+						if id, ok := ce.Fun.(*ast.Ident); ok && id.Name == "old" && e.oldSt != nil {
+							st = e.oldSt
+						}
+					}
+					li := resolveLoc(sliceElemAddr(v, mkBV(0, 64)))
+					if !li.backing || len(li.idxs) != 1 || li.hi-li.lo != 1 {
+						efail("argument %d of %s: slice must have a plain backing array", i, name)
+					}
+					c = Select(st.region(li.key(li.lo), li.regionSort(li.lo)), v.l[0])
+				}
+				args = append(args, c, v.l[1], v.l[2])
+				continue
+			}
 			if len(v.l) != len(leavesOf(pt)) {
 				efail("argument %d of %s: shape mismatch (%s vs %s)", i, name, typeKey(v.ty), typeKey(pt))
 			}
@@ -997,6 +1021,17 @@ func (x *Exec) declSpec(sf *SpecFunc) *UFDecl {
 		ty := env.resolveType(f.Type)
 		for _, nm := range f.Names {
 			sf.ptypes = append(sf.ptypes, ty)
+			if es := seqElemSort(ty); es != nil {
+				// slice of scalars: passed by contents (array, offset, length)
+				nmS := fmt.Sprintf("%s!%s", sf.name, nm.Name)
+				c := mkBound(nmS+".content", ArrS(I64, es))
+				o := mkBound(nmS+".off", I64)
+				ln := mkBound(nmS+".len", I64)
+				sorts = append(sorts, c.sort, I64, I64)
+				prm = append(prm, c, o, ln)
+				env.vars[nm.Name] = SV{ty: ty, l: []*Term{mkBV(0, 32), o, ln, ln}, content: c}
+				continue
+			}
 			ls := leavesOf(ty)
 			out := make([]*Term, len(ls))
 			for i, l := range ls {
@@ -1057,4 +1092,13 @@ func (e *Env) ghostOf(x ast.Expr) *ghostInfo {
 		}
 	}
 	return nil
+}
+
+// seqElemSort returns the element sort if ty is a slice of single-leaf scalars.
+func seqElemSort(ty types.Type) *Sort {
+	sl, ok := ty.Underlying().(*types.Slice)
+	if !ok {
+		return nil
+	}
+	return scalarSort(sl.Elem())
 }
